@@ -126,7 +126,7 @@ def generate(rng, tier, index):
                     rng, g, rng.randint(1, budget_hi), witness[s] if use_witness[s] else None, allow_lit=rng.random() < 0.05
                 )
                 cs.append(c)
-            ops.append({"s": s, "op": "ensure", "cs": cs, "nest": rng.randint(0, 2)})
+            ops.append({"s": s, "op": "ensure", "cs": cs, "nest": rng.randint(0, 5)})
         elif k == "find_answer":
             ops.append({"s": s, "op": "find_answer"})
             solved[s] = True
@@ -135,7 +135,7 @@ def generate(rng, tier, index):
         elif k == "add_key":
             ids = [i for i in range(len(decls[s])) if rng.random() < 0.4 and i not in keys[s]]
             keys[s].update(ids)
-            ops.append({"s": s, "op": "add_key", "ids": ids})
+            ops.append({"s": s, "op": "add_key", "ids": ids, "form": rng.randint(0, 3)})
         elif k == "scribble":
             i = rng.randrange(len(decls[s]))
             if decls[s][i]["t"] == "b":
@@ -243,13 +243,45 @@ class _Session:
 
 
 def _nest(cs, nest):
+    """The ways user code hands constraints to ensure(): positional, a list, nested lists, a
+    BoolArray (what `ensure(a <= b)` on arrays passes), a generator, a tuple of tuples."""
     if nest == 0:
         return tuple(cs)
     if nest == 1:
         return (list(cs),)
+    if nest == 3:
+        from cspuz import array as A
+        from cspuz.expr import Expr
+
+        if cs and all(isinstance(c, Expr) for c in cs):
+            n = len(cs)
+            return (A.BoolArray1D(cs),) if n % 2 else (A.BoolArray2D(cs, (2, n // 2)),)
+        return (list(cs),)
+    if nest == 4:
+        return ((c for c in cs),)
+    if nest == 5:
+        return (tuple((c,) for c in cs),)
     if len(cs) >= 2:
         return ([cs[0]], [[cs[1:]]])
     return ([[cs]],)
+
+
+def key_arg(vars_, ids, form):
+    """The ways user code hands variables to add_answer_key()."""
+    vs = [vars_[i] for i in ids]
+    if form == 1 and vs:
+        return tuple(vs)  # positional
+    if form == 2 and len(vs) >= 2:
+        return ([vs[0], [vs[1:]]],)
+    if form == 3 and vs:
+        from cspuz import array as A
+        from cspuz.expr import BoolVar
+
+        if all(isinstance(v, BoolVar) for v in vs):
+            return (A.BoolArray1D(vs),)
+        if not any(isinstance(v, BoolVar) for v in vs):
+            return (A.IntArray1D(vs),)
+    return (vs,)
 
 
 def run(sc) -> RunResult:
@@ -317,7 +349,7 @@ def _run_ops(sc, res, sessions, ctx, z3cap):
                     for t in refsem.tags(c):
                         res.hit("op:" + t)
             elif k == "add_key":
-                S.solver.add_answer_key([S.vars[i] for i in op["ids"]])
+                S.solver.add_answer_key(*key_arg(S.vars, op["ids"], op.get("form", 0)))
                 S.keys.update(op["ids"])
             elif k == "scribble":
                 S.vars[op["id"]].sol = op["val"]
